@@ -10,10 +10,10 @@ before/after, side-effect canary, second expansion of TAL-free documents); pytho
 the real TALFileHandler with its allowpythonpath option.  B3: spec/trace/TraceC18.tla judges every run."""
 from __future__ import annotations
 
+import hashlib
 import html
 import json
 import os
-import random
 
 from harness import c17, core
 
@@ -21,7 +21,7 @@ INVS18 = ["Terminates", "Escaped", "AttrEscaped", "PythonGated", "ContextRestore
 # `own`: the C18 families (thorough: their large option sets); `tal`: C17's template families, always with the quick-tier
 # option sets (they serve ContextRestored / Escaped on ordinary templates), thorough: with both contexts
 TIERS = {
-    "quick": dict(own=[(["esc", "py"], 1), (["doc"], 1)], tal=[(["expr", "void", "deep", "metalx"], 1), (["one"], 3), (["nest"], 2), (["metal"], 1)],
+    "quick": dict(own=[(["esc", "py"], 1), (["doc"], 1)], tal=[(["expr", "void", "deep", "metalx"], 1), (["one"], 3)],
                   ctxs=["A"], esclen=2),
     "thorough": dict(own=[(["esc"], 4), (["py"], 1), (["doc"], 1)], tal=[(["expr", "void", "deep", "metalx"], 1), (["one"], 3), (["nest"], 3), (["metal"], 2)],
                      ctxs=["A", "B"], esclen=3),
@@ -62,22 +62,41 @@ def _handler_job(job):
 
 
 def handler_runs(cases, consts):
+    """extra runs of a part (called inside the part's worker process): the py cases through the real server"""
     from harness import c17_tal
-    jobs, meta = [], []
+    runs = []
     for c in cases:
         if c["fam"] != "py":
             continue
-        jobs.append((c["tree"], "yes" if c["py"] else "no", consts))
-        meta.append(c)
-    outs = c17_tal.pool_map(_handler_job, jobs, None, procs=min(4, c17.procs())) if jobs else []
-    runs = []
-    for c, o in zip(meta, outs):
+        o = _handler_job((c["tree"], "yes" if c["py"] else "no", consts))
         init = {"tree": c["tree"], "ctx": {"id": "none", "ents": []}, "py": bool(c["py"]), "fam": "py", "var": 0, "kind": "handler",
                 "prog": [], "symt": [], "macros": [], "before": c17_tal.EMPTY_SNAP, "compiled": True}
         final = {"ev": "end", "raised": "", "doc": o["doc"], "cdoc": "", "doc2": "", "toks": [], "after": c17_tal.EMPTY_SNAP,
                  "canary": o["canary"], "nsteps": 0, "log": [str(x)[:200] for x in o["log"]], "escaped": o["escaped"] or ""}
         runs.append({"text": "handler:" + o["text"], "init": init, "events": [], "final": final})
     return runs
+
+
+META = set('<>&"\'')
+
+
+def measure18(runs, consts):
+    """what the vacuity guards and the non-trivial count need (hashes / counters, united by the parent)"""
+    h = lambda s: hashlib.sha1(s.encode()).digest()[:8]        # noqa: E731
+    direct = [r for r in runs if r["init"]["kind"] == "direct"]
+    hand = [r for r in runs if r["init"]["kind"] == "handler"]
+    return {
+        "esc": {h(r["text"] + json.dumps(r["init"]["ctx"]["ents"])) for r in direct
+                if r["init"]["fam"] == "esc" and any(set(x["q"][0]["s"]) & META for x in r["init"]["ctx"]["ents"][:1])},
+        "docs": {h(r["text"]) for r in direct if r["init"]["fam"] == "doc" and r["final"]["doc2"]},
+        "pushes": {h(c17.case_key(r)) for r in direct
+                   if r["final"]["after"]["nls"] == 0 and any(e[9] > 0 or e[10] > 0 for e in r["events"])},
+        "canary_direct_on": sum(r["final"]["canary"] for r in direct if r["init"]["py"]),
+        "canary_direct_off": sum(r["final"]["canary"] for r in direct if not r["init"]["py"]),
+        "canary_handler_on": sum(r["final"]["canary"] for r in hand if r["init"]["py"]),
+        "handler_runs": len(hand),
+        "handler_sample": [(r["init"]["py"], r["final"]["canary"], r["final"]["doc"][:80], r["final"]["log"]) for r in hand[:2]],
+    }
 
 
 def selftest():
@@ -104,7 +123,7 @@ def selftest():
     can["final"]["canary"] = 1
     tv = c17.validate("TraceC18", "TSpec18", [good, raw, att, leak, can], {}, consts_text)
     rej = {r["index"]: r["clause"] for r in tv["rejected"]}
-    ok = rej == {1: "Escaped", 2: "Escaped", 3: "ContextRestored", 4: "PythonGated"}
+    ok = rej == {1: "Escaped", 2: "AttrEscaped", 3: "ContextRestored", 4: "PythonGated"}
     return ok, rej
 
 
@@ -112,59 +131,58 @@ def main(chk, replay=None):
     from harness import c17_tal
     t = TIERS[chk.tier]
     consts_text, consts, bound = c17_tal.import_constants()
+    common = c17.common_job(chk, consts_text, consts, module="MC_C18", invs=INVS18, trace_module="TraceC18", trace_spec="TSpec18",
+                            want_tokens=True, esclen=t["esclen"], measure=measure18, extra_runs=handler_runs)
     if replay:
-        cases = c17.load_replay(replay)
-        with open(replay) as fp:
-            kind = json.load(fp)["case"].get("kind", "direct")
-        _c, contexts, tot = c17.model_check(chk, [(["py"], 1)], t["ctxs"], INVS18, consts_text, esclen=1, module="MC_C18")
+        case = c17.load_replay(replay)
+        cjob = dict(common, fams=["py"], ctx="A", nparts=1, part=0, esclen=1, extra_runs=None)
+        runs = handler_runs([dict(case, fam="py")], consts) if case["kind"] == "handler" else None
+        r = c17.replay_result(case, cjob, "TraceC18", "TSpec18", want_tokens=True, runs=runs)
+        r["measure"] = measure18(r.pop("runs"), consts)
+        results = [r]
     else:
-        cases, contexts, tot = c17.model_check(chk, t["own"], t["ctxs"], INVS18, consts_text, esclen=t["esclen"], module="MC_C18")
-        cases2, contexts2, tot2 = c17.model_check(chk, t["tal"], t["ctxs"], INVS18, consts_text, esclen=t["esclen"], module="MC_C18", quick=True)
-        cases += cases2
-        contexts.update(contexts2)
-        for k in ("distinct", "generated"):
-            tot[k] += tot2[k]
-        tot["wall"] += tot2["wall"]
-        kind = None
-    random.Random(chk.seed).shuffle(cases)
-    runs = [] if kind == "handler" else c17.run_cases(cases, contexts, consts, want_tokens=True)
-    hruns = handler_runs(cases, consts) if kind in (None, "handler") else []
-    runs = runs + hruns
+        jobs = c17.make_jobs(t["own"], t["ctxs"], **common) + c17.make_jobs(t["tal"], t["ctxs"], **dict(common, quick=True))
+        results = c17.run_parts(jobs)
+    tot = c17.collect(chk, results)
+    m = {"esc": set(), "docs": set(), "pushes": set(), "canary_direct_on": 0, "canary_direct_off": 0, "canary_handler_on": 0,
+         "handler_runs": 0, "handler_sample": []}
+    for r in results:
+        for k, v in r.get("measure", {}).items():
+            if isinstance(v, set):
+                m[k] |= v
+            elif isinstance(v, list):
+                m[k] += v
+            else:
+                m[k] += v
     # ---- vacuity guards: the hooks and antecedents the clauses depend on were exercised -------------------------
-    if not replay:
-        if sum(len(r["events"]) for r in runs) == 0:
+    if not replay and not chk.violations:
+        if tot["events"] == 0:
             raise core.MachineryError("C18: the tracing interpreter logged no opcode: interpreter= binding not exercised")
-        py_on = [r for r in runs if r["init"]["py"] and r["init"]["kind"] == "direct"]
-        if not py_on or not any(r["final"]["canary"] > 0 for r in py_on):
+        if m["canary_direct_on"] == 0:
             raise core.MachineryError("C18: the python: canary was never touched with allowPythonPath on (direct)")
-        h_on = [r for r in hruns if r["init"]["py"]]
-        if not h_on or not any(r["final"]["canary"] > 0 for r in h_on):
+        if m["canary_handler_on"] == 0:
             raise core.MachineryError("C18: the python: canary was never touched through TALFileHandler with allowpythonpath=yes: %r"
-                                      % [(r["final"]["doc"][:80], r["final"]["log"]) for r in h_on[:2]])
-        if not any(r["init"]["fam"] == "doc" and r["final"]["doc2"] for r in runs):
+                                      % (m["handler_sample"],))
+        if not m["docs"]:
             raise core.MachineryError("C18: no TAL-free document was expanded twice")
-    tv = c17.validate("TraceC18", "TSpec18", runs, contexts, consts_text)
-    c17.report(chk, runs, tv)
-    meta = set('<>&"\'')
-    esc_nontrivial = len({r["text"] + json.dumps(r["init"]["ctx"]["ents"]) for r in runs
-                          if r["init"]["fam"] == "esc" and any(set(x["q"][0]["s"]) & meta for x in r["init"]["ctx"]["ents"][:1])})
-    docs = len({r["text"] for r in runs if r["init"]["fam"] == "doc"})
-    pushes = sum(1 for r in runs if r["final"]["after"]["nls"] == 0 and any(e[9] > 0 or e[10] > 0 for e in r["events"]))
+        if not m["esc"] or not m["pushes"]:
+            raise core.MachineryError("C18: no markup-bearing value substituted / the Context stacks were never pushed")
     cov = {
-        "states": tot["distinct"], "transitions": tot["generated"], "exhaustive": True,
-        "traces_validated_against_impl": tv["accepted"], "traces_rejected": len(tv["rejected"]),
-        "evaluations": len(runs), "distinct_nontrivial": esc_nontrivial + docs + len(hruns) + pushes,
-        "rule": "cases = every case TLC enumerated in MC_C17 for the family parts %s x contexts %s (EscLen=%d), python: cases also "
-                "through the real TALFileHandler; non-trivial = distinct esc templates whose substituted value contains a markup "
-                "metacharacter (%d) + distinct TAL-free document spellings expanded twice (%d) + handler runs (%d) + runs in "
-                "which the Context's local/repeat stacks were actually pushed and found empty again (%d)"
-                % (t["own"] + t["tal"], t["ctxs"], t["esclen"], esc_nontrivial, docs, len(hruns), pushes),
-        "samples": [{"template": r["text"], "doc": r["final"]["doc"], "canary": r["final"]["canary"]} for r in runs[:2] + hruns[:2]],
-        "checker_cmd": tot["cmd"] + " ; " + tv["cmd"],
-        "trace_states": tv["states"], "constants_bound": bound,
-        "canary_hits_direct": sum(r["final"]["canary"] for r in runs if r["init"]["kind"] == "direct"),
-        "canary_hits_handler": sum(r["final"]["canary"] for r in hruns),
-        "families": sorted({c["fam"] for c in cases}), "model_wall_s": tot["wall"], "trace_wall_s": tv["wall_s"],
+        "states": tot["states"], "transitions": tot["generated"], "exhaustive": True,
+        "traces_validated_against_impl": tot["accepted"], "traces_rejected": tot["rejected"],
+        "evaluations": tot["cases"], "distinct_nontrivial": len(m["esc"]) + len(m["docs"]) + m["handler_runs"] + len(m["pushes"]),
+        "rule": "cases = every case TLC enumerated in MC_C18 for the family groups %s (tier option sets) and %s (quick option sets) x "
+                "contexts %s (EscLen=%d), python: cases also through the real TALFileHandler; non-trivial = distinct esc templates whose "
+                "substituted value contains a markup metacharacter (%d) + distinct TAL-free document spellings expanded twice (%d) + "
+                "handler runs (%d) + distinct runs in which the Context's local/repeat stacks were actually pushed and found empty "
+                "again (%d)" % (t["own"], t["tal"], t["ctxs"], t["esclen"], len(m["esc"]), len(m["docs"]), m["handler_runs"], len(m["pushes"])),
+        "samples": tot["samples"],
+        "checker_cmd": tot["mc_cmd"] + " ; " + tot["trace_cmd"],
+        "trace_states": tot["trace_states"], "model_drift": tot["n_drift"], "constants_bound": bound,
+        "canary_hits_direct_on": m["canary_direct_on"], "canary_hits_direct_off": m["canary_direct_off"],
+        "canary_hits_handler_on": m["canary_handler_on"], "handler_runs": m["handler_runs"],
+        "families": sorted(tot["families"]), "parts": len(results),
+        "model_cpu_s": round(tot["mc_wall"], 1), "trace_cpu_s": round(tot["trace_wall"], 1),
         "bindings": ["B1 opcode numbers + HTML_FORBIDDEN_ENDTAG", "B2 every TLC case compiled/expanded by the real simpleTAL; python: also through "
                      "handlers/tal.py", "B3 TraceC18"],
     }
